@@ -3,6 +3,13 @@ package main
 // props configures tiers per property; rules describe generation / non-triviality for evidence.
 var props = map[string]propCfg{
 	"C01": defCfg(),
+	"C02": defCfg(),
+	"C03": defCfg(),
+	"C04": defCfg(),
+	"C05": defCfg(),
+	"C13": defCfg(),
+	"C17": defCfg(),
+	"C18": defCfg(),
 }
 
 var rules = map[string]string{
